@@ -2,6 +2,7 @@ import Lean.Data.Json
 import AFModel.Ident
 import AFModel.IdentComp
 import AFModel.IdentJoin
+import AFModel.IdentSearch
 import AFDriver.Wire
 
 open Lean (Json)
@@ -137,8 +138,23 @@ def handleC07Join (j : Json) : Except String Json := do
   pure (Json.mkObj [("joined", Json.str (joinTokens ts)), ("pieces", strArr (tokenPieces ts)),
     ("dotfree", Json.bool (ts.all (fun t => dotFree t.toList)))])
 
+/-- `{"kind":"search","cls":name,"settings":[[name, pyval]…]}`: tokens of a search of a class of the generated table -/
+def handleC07Search (j : Json) : Except String Json := do
+  let name ← (j.getObjVal? "cls") >>= (·.getStr?)
+  let arr ← (j.getObjVal? "settings") >>= (·.getArr?)
+  let settings ← arr.toList.mapM fun a => do
+    let pair ← a.getArr?
+    if pair.size != 2 then throw "bad setting"
+    pure ((← pair[0]!.getStr?), (← parsePyVal pair[1]!))
+  match lookupRow name with
+  | none => pure (Json.mkObj [("known", Json.bool false)])
+  | some row =>
+      pure (Json.mkObj [("known", Json.bool true), ("tokens", strArr (tokens (searchVal row (settingsOf settings)))),
+        ("idf", strArr row.idf), ("others", strArr row.others)])
+
 def handleC07 (j : Json) : Except String Json := do
   match j.getObjVal? "kind" with
+  | .ok (Json.str "search") => handleC07Search j
   | .ok (Json.str "comp") => handleC07Comp j
   | .ok (Json.str "join") => handleC07Join j
   | _ =>
